@@ -147,7 +147,7 @@ func (r *runner) probe(t *Target, s []byte, ref jt.Verdict) (coarseSig, fineSig,
 	}
 	switch {
 	case got && !rv.Accept:
-		return family(t.Name) + "|accepts-invalid|" + coarse(rv), t.Name + "|" + rv.Sig(),
+		return family(t.Name) + "|accepts-invalid|" + jt.CoarseRoot(rv), t.Name + "|" + rv.Sig(),
 			"accepted; reference rejects at offset " + fmt.Sprint(rv.At), in
 	case !got && rv.Accept && t.Both:
 		if t.Builds {
@@ -259,46 +259,6 @@ func family(name string) string {
 	return api + "|" + d
 }
 
-
-// coarse renders the rejecting reference transition with modes and byte classes grouped by root cause.
-func coarse(v jt.Verdict) string {
-	if v.Depth {
-		return "depth"
-	}
-	m, c := v.Mode, v.Class
-	switch m {
-	case "U1", "U2", "U3", "U4":
-		if c == "EOF" {
-			return "U,EOF"
-		}
-		return "U,nonhex"
-	case "T1", "T2", "T3", "F1", "F2", "F3", "F4", "L1", "L2", "L3":
-		if c == "EOF" {
-			return "LIT,EOF"
-		}
-		return "LIT,wrong"
-	case "S":
-		if c == "wc" || c == "CTL" || c == "NUL" {
-			return "S,ctl"
-		}
-	case "SE":
-		if c != "EOF" {
-			return "SE,bad"
-		}
-	}
-	if len(m) == 2 && m[0] == 'N' {
-		// all number-scanning states: one root cause per scanner (the number grammar is not enforced)
-		if c == "NUL" || c == "EOF" {
-			return "NUM," + c
-		}
-		return "NUM,bad"
-	}
-	// structural states: one root cause per state; NUL and end of input kept apart (sentinel handling)
-	if c != "NUL" && c != "EOF" {
-		c = "bad"
-	}
-	return m + "," + c
-}
 
 // coarseShape keeps only the token kinds of a shape.
 func coarseShape(sh string) string {
@@ -427,58 +387,6 @@ func (r *runner) partA(maxLen int, idx int64) int64 {
 	return idx
 }
 
-// genValid walks the automaton at random, steering towards acceptance once budget is used up.
-func genValid(t *jt.Table, rng *rand.Rand, budget int) []byte {
-	s := t.Init()
-	var out []byte
-	n := len(t.Classes)
-	for step := 0; step < budget*6; step++ {
-		if t.Accepting(&s) && (len(out) >= budget || rng.Intn(8) == 0) {
-			return out
-		}
-		// candidate classes that do not reject
-		var ok []int
-		for c := 0; c < n; c++ {
-			cp := jt.State{Mode: s.Mode, Stack: append([]uint8(nil), s.Stack...)}
-			if t.StepClass(&cp, c) {
-				if len(out) >= budget {
-					// prefer steps that shrink or keep the stack and leave strings/numbers
-					if len(cp.Stack) > len(s.Stack) {
-						continue
-					}
-				}
-				ok = append(ok, c)
-			}
-		}
-		if len(ok) == 0 {
-			break
-		}
-		c := ok[rng.Intn(len(ok))]
-		if len(out) >= budget {
-			// greedy: pick the step that gets closest to acceptance (closers, quote)
-			best := -1
-			for _, cc := range ok {
-				cp := jt.State{Mode: s.Mode, Stack: append([]uint8(nil), s.Stack...)}
-				t.StepClass(&cp, cc)
-				if len(cp.Stack) < len(s.Stack) || (t.Modes[s.Mode] == "S" && t.Classes[cc] == "q") {
-					best = cc
-					break
-				}
-			}
-			if best >= 0 {
-				c = best
-			}
-		}
-		t.StepClass(&s, c)
-		bs := t.ClassByte[c]
-		out = append(out, bs[rng.Intn(len(bs))])
-	}
-	if t.Accepting(&s) {
-		return out
-	}
-	return nil
-}
-
 func (r *runner) partB(part string, count int, seed int64, idx int64, counted bool) int64 {
 	t := r.tab
 	for k := 0; k < count; k++ {
@@ -487,7 +395,7 @@ func (r *runner) partB(part string, count int, seed int64, idx int64, counted bo
 			continue
 		}
 		rng := rand.New(rand.NewSource(seed*1000003 + int64(k)))
-		txt := genValid(t, rng, 4+rng.Intn(24))
+		txt := jt.GenValid(t, rng, 4+rng.Intn(24))
 		if txt == nil {
 			idx++
 			continue
